@@ -25,6 +25,15 @@ if _deps.is_numpy_available():
     import numpy.typing as npt
 
 
+def unwrap_type_alias(tp: typing.Any) -> typing.Any:  # noqa: ANN401
+    """Resolve `type` statement style aliases (such as `npt.NDArray[...]` in recent numpy) to the aliased type."""
+    origin = typing.get_origin(tp)
+    if origin is not None and hasattr(origin, "__value__"):
+        # a subscripted alias, substitute the arguments into the aliased generic
+        return origin.__value__[typing.get_args(tp)]
+    return getattr(tp, "__value__", tp)
+
+
 def _resolve_numpy_dtype(
     np_array_t: type[npt.NDArray[typing.Any]],
 ) -> list[npt.DTypeLike]:
@@ -136,6 +145,7 @@ class TensorTypeBase:
 
             return tensor
 
+        source_type = unwrap_type_alias(source_type)
         if _deps.is_numpy_available() and typing.get_origin(source_type) is np.ndarray:  # pyright: ignore[reportPossiblyUnboundVariable]
             dtypes = _resolve_numpy_dtype(source_type)
             if self.DTYPES and any(dtype not in self.DTYPES for dtype in dtypes):
